@@ -567,9 +567,12 @@ def rewritten_fields(ctx, rep, clause):
                     val = env[val.id]
                 t = st.targets[0]
                 if isinstance(t, ast.Tuple) and isinstance(val, ast.Tuple) and len(t.elts) == len(val.elts):
-                    for t_, v_ in zip(t.elts, val.elts):   # a, b = (x, y) if flag else (y, x)
+                    # a, b = (x, y) if flag else (y, x) ; a, b = b, a  -- the right-hand side is read before any target
+                    # is written
+                    new_vals = [env.get(v_.id, v_) if isinstance(v_, ast.Name) else v_ for v_ in val.elts]
+                    for t_, nv in zip(t.elts, new_vals):
                         if isinstance(t_, ast.Name):
-                            env[t_.id] = env.get(v_.id, v_) if isinstance(v_, ast.Name) else v_
+                            env[t_.id] = nv
                     continue
                 if isinstance(t, ast.Name):
                     env[t.id] = val
